@@ -130,9 +130,9 @@ Qed.
         code sends whatever its union holds: 1 for (true, 5)). ------------------------- *)
 Theorem D24_message_refuted :
   exists a v, denote F0 a v /\
-    avmessage_gen false F0 [47; 97] a (Zlength a) = None /\
-    message_of [47; 97] v = Some [47; 97; 0; 0; 44; 84; 105; 0; 0; 0; 0; 5] /\
-    avmessage F0 [47; 97] a (Zlength a) = message_of [47; 97] v.
+    avmessage_gen false F0 None [47; 97] a (Zlength a) = None /\
+    message_enc [47; 97] v = Some [47; 97; 0; 0; 44; 84; 105; 0; 0; 0; 0; 5] /\
+    avmessage F0 None [47; 97] a (Zlength a) = Some (12, None).
 Proof.
   exists [SV 84 VNone; SV 105 (VI 5)], [Val 84 VNone; Val 105 (VI 5)].
   split; [repeat (apply den_val; [constructor|]); constructor|].
